@@ -211,7 +211,10 @@ CHECKS = {
                 "consumer reading any further, after either ending the result channel is closed, the underlying Stop was called and no goroutine "
                 "remains in (*hijackWatch).receive (runtime.Stack; 10 s deadline, the parked frame is the synchronous witness). Non-trivial = the "
                 "schedule has an Error event, or a Stop while a sent event is unreceived; distinct = distinct schedule",
-        "legs": [{"test": "TestC20", "quick": {"checks": 6000}, "thorough": {"checks": 800000, "shards": 16}}],
+        "legs": [
+            {"test": "TestC20", "quick": {"checks": 6000}, "thorough": {"checks": 800000, "shards": 16}},
+            {"test": "TestC20", "race": True, "thorough": {"checks": 40000, "shards": 4}},
+        ],
         "floors": {"has-error-event": 0.2, "stop-with-unreceived-events": 0.1},
         "assumptions": ["the relay goroutine is the only asynchronous party; waits on it are bounded by a 10 s deadline and never decide alone"],
     },
